@@ -1332,7 +1332,7 @@ func (se *SessionExecutor) handleShow(reqCtx *util.RequestContext, sql string) (
 		reqCtx.SetFromSlave(true)
 	}
 	// handle show variables like '%read_only%' default to master
-	if strings.Contains(sql, readonlyVariable) && se.GetNamespace().IsAllowWrite(se.user) {
+	if strings.Contains(strings.ToLower(sql), readonlyVariable) && se.GetNamespace().IsAllowWrite(se.user) {
 		reqCtx.SetFromSlave(false)
 	}
 	r, err := se.ExecuteSQL(reqCtx, se.GetNamespace().GetDefaultSlice(), se.db, sql)
